@@ -92,6 +92,18 @@ theorem x25519_eq_rfc7748 (k u : List UInt8) (hk : k.length = 32) :
   rw [montMul_eq u _ (by rw [clampInteger_length, hk])]
   rfl
 
+/-- The result depends on the point bytes only through `from_bytes`: bit 255 is ignored and non-canonical
+encodings (`u ≥ p`) act as `u mod p`. -/
+theorem x25519_depends_on_u_mod_p (k u u' : List UInt8) (h : feFromBytes u = feFromBytes u') :
+    dalekX25519 k u = dalekX25519 k u' := by
+  unfold dalekX25519 mulClamped Ladder.montMul montMulBitsBE
+  rw [h]
+
+/-- e.g. setting bit 255 of a `u` below `2^255` changes nothing -/
+example (k u : List UInt8) (hu : u.length = 32) (h : leToNat u < 2 ^ 255) :
+    dalekX25519 k (setSignBit u true) = dalekX25519 k u :=
+  x25519_depends_on_u_mod_p k _ _ (feFromBytes_setSignBit hu h true)
+
 /-! ## typed paths -/
 
 /-- `MontgomeryPoint(u).mul_clamped(k)` is `X25519(k, u)`. -/
